@@ -29,6 +29,6 @@ def run(ctx):
     return ctx.finish(
         rule="every call / operator application of the family evaluated by the real evaluator; compared: exact decimal result; round at "
              "a tie accepts either neighbour; non-trivial = pinned cases",
-        assumptions=["sqrt / exp / ln / log: 'agree to 15 significant digits' is read as a relative error of at most 5e-15; exp arguments below 40 in magnitude; "
+        assumptions=["sqrt / exp / ln / log: 'agree to 15 significant digits' is read as a relative error of at most 5e-15; random exp arguments below 40 in magnitude, whole-number anchors up to 100; "
                      "the oracle evaluates exp in 32-decimal fixed point (relative error < 1e-28) and checks itself on known constants",
                      "results on non-finite arguments and integers beyond 2^53 are unpinned"])
